@@ -29,6 +29,206 @@ def _fb(name, params, hand, ty='α'):
     return f"def {name} ({' '.join(params)} : {ty}) : {ty} := Aegean.Model.C17.{hand} {' '.join(params)}"
 
 
+# ---------------------------------------------------------------------------------------------------------------
+# Source normalisation (behaviour-preserving refactors must not fall out of the translator's whitelist).
+#
+# The targets below do not read angle_tools.py directly but a NORMALISED COPY of it written to a temp file:
+#   (1) a call to a module-level helper whose body is a single `return <expr>` is replaced by that expression with
+#       the arguments substituted (e.g. `_archav_deg(hav)`);
+#   (2) `q, r = divmod(x, y)` becomes `q = x // y; r = x % y`;
+#   (3) `t1, …, tk = helper(args)` where the helper is straight-line (assignments and (2) only) and ends in
+#       `return e1, …, ek` is replaced by the helper's body with its locals prefixed, then `ti = ei`;
+#   (4) in gcd the local names are renamed by ROLE, read off the final `return np.where(<x> > c, <f>, <s>)[()]`:
+#       the compared name becomes `a`, the branch assigned from `180 - …` (or called `far`) becomes `far`, the other
+#       `sep`.
+# Only pure, straight-line helpers are inlined (anything with a branch, a loop, a global or an attribute store is
+# left alone and the target is then UNTRANSLATABLE -> hand fallback); if any step is not clearly applicable the
+# function is left exactly as it is.  The tree is $AEGEAN_REPO (default /repo), as for every caller of generate().
+# ---------------------------------------------------------------------------------------------------------------
+def _normalised_module():
+    import ast
+    import copy
+    import hashlib
+    import os
+    import tempfile
+    repo = os.environ.get('AEGEAN_REPO', '/repo')
+    try:
+        tree = ast.parse(open(os.path.join(repo, _F)).read())
+    except Exception:
+        return _F
+    funcs = {n.name: n for n in tree.body if isinstance(n, ast.FunctionDef)}
+
+    def body_wo_doc(fn):
+        b = list(fn.body)
+        if b and isinstance(b[0], ast.Expr) and isinstance(getattr(b[0], 'value', None), ast.Constant) \
+                and isinstance(b[0].value.value, str):
+            b = b[1:]
+        return b
+
+    def plain_params(fn):
+        a = fn.args
+        if a.vararg or a.kwarg or a.kwonlyargs or a.defaults or a.posonlyargs:
+            return None
+        return [x.arg for x in a.args]
+
+    class Subst(ast.NodeTransformer):
+        def __init__(self, m):
+            self.m = m
+
+        def visit_Name(self, node):
+            if isinstance(node.ctx, ast.Load) and node.id in self.m:
+                return copy.deepcopy(self.m[node.id])
+            return node
+
+    class Rename(ast.NodeTransformer):
+        def __init__(self, m):
+            self.m = m
+
+        def visit_Name(self, node):
+            if node.id in self.m:
+                return ast.copy_location(ast.Name(id=self.m[node.id], ctx=node.ctx), node)
+            return node
+
+    def is_pure_expr(e):
+        for n in ast.walk(e):
+            if isinstance(n, (ast.Lambda, ast.Await, ast.Yield, ast.YieldFrom, ast.NamedExpr, ast.Starred)):
+                return False
+        return True
+
+    expr_helpers = {}
+    for name, fn in funcs.items():
+        ps, b = plain_params(fn), body_wo_doc(fn)
+        if ps is not None and len(b) == 1 and isinstance(b[0], ast.Return) and b[0].value is not None \
+                and not isinstance(b[0].value, ast.Tuple) and is_pure_expr(b[0].value) \
+                and not any(isinstance(n, ast.Call) and isinstance(n.func, ast.Name) and n.func.id in funcs
+                            for n in ast.walk(b[0].value)):
+            expr_helpers[name] = (ps, b[0].value)
+
+    class InlineExpr(ast.NodeTransformer):
+        def visit_Call(self, node):
+            self.generic_visit(node)
+            if isinstance(node.func, ast.Name) and node.func.id in expr_helpers and not node.keywords:
+                ps, e = expr_helpers[node.func.id]
+                if len(ps) == len(node.args):
+                    return Subst(dict(zip(ps, node.args))).visit(copy.deepcopy(e))
+            return node
+
+    def divmod_split(st):
+        """q, r = divmod(x, y)  ->  [q = x // y, r = x % y]   (None if st is not of that shape)"""
+        if isinstance(st, ast.Assign) and len(st.targets) == 1 and isinstance(st.targets[0], ast.Tuple) \
+                and len(st.targets[0].elts) == 2 and all(isinstance(t, ast.Name) for t in st.targets[0].elts) \
+                and isinstance(st.value, ast.Call) and isinstance(st.value.func, ast.Name) and st.value.func.id == 'divmod' \
+                and len(st.value.args) == 2 and not st.value.keywords and is_pure_expr(st.value):
+            x, y = st.value.args
+            q, r = st.targets[0].elts
+            if q.id == r.id or any(isinstance(n, ast.Name) and n.id in (q.id, r.id) for n in ast.walk(st.value)):
+                return None
+            return [ast.Assign(targets=[ast.Name(id=q.id, ctx=ast.Store())], value=ast.BinOp(copy.deepcopy(x), ast.FloorDiv(), copy.deepcopy(y))),
+                    ast.Assign(targets=[ast.Name(id=r.id, ctx=ast.Store())], value=ast.BinOp(copy.deepcopy(x), ast.Mod(), copy.deepcopy(y)))]
+        return None
+
+    def block_helper(fn):
+        """(params, straight-line statements, return elements) or None"""
+        ps, b = plain_params(fn), body_wo_doc(fn)
+        if ps is None or not b or not isinstance(b[-1], ast.Return) or not isinstance(b[-1].value, ast.Tuple):
+            return None
+        stmts = []
+        for st in b[:-1]:
+            dm = divmod_split(st)
+            if dm is not None:
+                stmts += dm
+            elif isinstance(st, ast.Assign) and len(st.targets) == 1 and isinstance(st.targets[0], ast.Name) and is_pure_expr(st.value) \
+                    and not any(isinstance(n, ast.Call) and isinstance(n.func, ast.Name) and n.func.id in funcs for n in ast.walk(st.value)):
+                stmts.append(st)
+            else:
+                return None
+        if not all(is_pure_expr(e) for e in b[-1].value.elts):
+            return None
+        return ps, stmts, list(b[-1].value.elts)
+
+    def inline_blocks(fn):
+        out = []
+        for st in fn.body:
+            dm = divmod_split(st)
+            if dm is not None:
+                out += dm
+                continue
+            if isinstance(st, ast.Assign) and len(st.targets) == 1 and isinstance(st.targets[0], ast.Tuple) \
+                    and all(isinstance(t, ast.Name) for t in st.targets[0].elts) and isinstance(st.value, ast.Call) \
+                    and isinstance(st.value.func, ast.Name) and st.value.func.id in funcs and not st.value.keywords:
+                h = block_helper(funcs[st.value.func.id])
+                if h is not None and len(h[0]) == len(st.value.args) and len(h[2]) == len(st.targets[0].elts):
+                    ps, stmts, rets = h
+                    pre = '_' + st.value.func.id.strip('_') + '_'
+                    local = set(ps) | {s2.targets[0].id for s2 in stmts}
+                    ren = Rename({v: pre + v for v in local})
+                    for pname, arg in zip(ps, st.value.args):
+                        out.append(ast.Assign(targets=[ast.Name(id=pre + pname, ctx=ast.Store())], value=copy.deepcopy(arg)))
+                    for s2 in stmts:
+                        out.append(ren.visit(copy.deepcopy(s2)))
+                    for tgt, e in zip(st.targets[0].elts, rets):
+                        out.append(ast.Assign(targets=[ast.Name(id=tgt.id, ctx=ast.Store())], value=ren.visit(copy.deepcopy(e))))
+                    continue
+            out.append(st)
+        fn.body = out
+
+    def gcd_roles(fn):
+        rets = [n for n in fn.body if isinstance(n, ast.Return)]
+        if not rets:
+            return
+        e = rets[-1].value
+        if isinstance(e, ast.Subscript):
+            e = e.value
+        if not (isinstance(e, ast.Call) and ast.unparse(e.func) in ('np.where', 'numpy.where') and len(e.args) == 3
+                and isinstance(e.args[1], ast.Name) and isinstance(e.args[2], ast.Name) and isinstance(e.args[0], ast.Compare)):
+            return
+        cn = [n.id for n in ast.walk(e.args[0]) if isinstance(n, ast.Name)]
+        if len(set(cn)) != 1:
+            return
+        x, y = e.args[1].id, e.args[2].id
+
+        def from_180(v):
+            asg = [s for s in fn.body if isinstance(s, ast.Assign) and len(s.targets) == 1 and isinstance(s.targets[0], ast.Name)
+                   and s.targets[0].id == v]
+            return bool(asg) and isinstance(asg[-1].value, ast.BinOp) and isinstance(asg[-1].value.op, ast.Sub) \
+                and isinstance(asg[-1].value.left, ast.Constant) and asg[-1].value.left.value == 180
+        far = x if (x == 'far' or (y != 'far' and from_180(x) and not from_180(y))) else \
+            y if (y == 'far' or (from_180(y) and not from_180(x))) else None
+        if far is None or x == y:
+            return
+        sep = y if far == x else x
+        m = {cn[0]: 'a', far: 'far', sep: 'sep'}
+        if len(set(m)) != 3:
+            return
+        used = {n.id for n in ast.walk(fn) if isinstance(n, ast.Name)} | {a.arg for a in fn.args.args}
+        if any(new in used and new not in m for new in m.values()):      # a canonical name is already taken by another local
+            return
+        Rename(m).visit(fn)
+
+    try:
+        new = copy.deepcopy(tree)
+        for n in new.body:
+            if isinstance(n, ast.FunctionDef) and n.name in ('gcd', 'bear', 'translate', 'dec2dms', 'dec2hms'):
+                InlineExpr().visit(n)
+                inline_blocks(n)
+                if n.name == 'gcd':
+                    gcd_roles(n)
+        ast.fix_missing_locations(new)
+        text = ast.unparse(new) + "\n"
+        ast.parse(text)
+    except Exception:
+        return _F
+    d = os.path.join(tempfile.gettempdir(), 'verif-C17-slices')
+    os.makedirs(d, exist_ok=True)
+    path = os.path.join(d, 'angle_tools_norm_' + hashlib.sha1(text.encode()).hexdigest()[:12] + '.py')
+    if not os.path.exists(path):
+        with open(path + '.tmp%d' % os.getpid(), 'w') as f:
+            f.write(text)
+        os.replace(path + '.tmp%d' % os.getpid(), path)
+    return path
+
+
+_N = _normalised_module()          # absolute path: os.path.join(repo, _N) is _N whatever `repo` is
 
 
 def _select_slice():
@@ -43,7 +243,7 @@ def _select_slice():
     import tempfile
     repo = os.environ.get('AEGEAN_REPO', '/repo')
     try:
-        tree = ast.parse(open(os.path.join(repo, _F)).read())
+        tree = ast.parse(open(os.path.join(repo, _N)).read())
         fn = [n for n in ast.walk(tree) if isinstance(n, ast.FunctionDef) and n.name == 'gcd'][0]
         ret = [n for n in fn.body if isinstance(n, ast.Return)][-1].value
 
@@ -79,7 +279,7 @@ def _select_slice():
 
 
 TARGETS = [
-    dict(file=_F, func='gcd', mode='real', params={p: 'A' for p in _A4},
+    dict(file=_N, func='gcd', mode='real', params={p: 'A' for p in _A4},
          outputs=[('a', 'havA'), ('sep', 'gcdNear'), ('far', 'gcdFar')],
          fallback={'havA': _fb('havA', _A4, 'havAHand'), 'gcdNear': _fb('gcdNear', _A4, 'gcdNearHand'),
                    'gcdFar': _fb('gcdFar', _A4, 'gcdFarHand')},
@@ -89,30 +289,35 @@ TARGETS = [
          outputs=[('sel', 'gcdSelect')],
          fallback={'gcdSelect': 'def gcdSelect (a far sep : Float) : Float := Aegean.Model.C17.gcdSelect a far sep'},
          all_params=['a', 'far', 'sep']),
-    dict(file=_F, func='bear', mode='real', params={p: 'A' for p in _A4},
+    dict(file=_N, func='bear', mode='real', params={p: 'A' for p in _A4},
          returns='bear', fallback={'bear': _fb('bear', _A4, 'bearHand')}, all_params=_A4),
-    dict(file=_F, func='translate', mode='real', params={p: 'A' for p in _T4},
+    dict(file=_N, func='translate', mode='real', params={p: 'A' for p in _T4},
          returns=['translateRa', 'translateDec'],
          fallback={'translateRa': _fb('translateRa', _T4, 'translateRaHand'),
                    'translateDec': _fb('translateDec', _T4, 'translateDecHand')},
          all_params=_T4),
-    dict(file=_F, func='dec2dec', mode='real', params={'d0': 'A', 'd1': 'A', 'd2': 'A'},
+    dict(file=_N, func='dec2dec', mode='real', params={'d0': 'A', 'd1': 'A', 'd2': 'A'},
          subst={'float(d[0])': 'd0', 'float(d[1])': 'd1', 'float(d[2])': 'd2',
                 'd[0]': 'd0', 'd[1]': 'd1', 'd[2]': 'd2'},   # also when the fields are converted once, up front
          returns='dec2decNeg', fallback={'dec2decNeg': _fb('dec2decNeg', ['d0', 'd1', 'd2'], 'dec2decNegHand')},
          all_params=['d0', 'd1', 'd2']),
-    dict(file=_F, func='ra2dec', mode='real', params={'v': 'A'}, subst={'dec2dec(ra)': 'v'},
+    dict(file=_N, func='ra2dec', mode='real', params={'v': 'A'}, subst={'dec2dec(ra)': 'v'},
          returns='ra2decScale', fallback={'ra2decScale': _fb('ra2decScale', ['v'], 'ra2decScaleHand')},
          all_params=['v']),
     # the formatters: `n = int(round(...))` is outside the whitelist, so `n` becomes the input of the
     # regenerated field arithmetic (Nat).  On a tree without the integer formulation (the pinned one)
     # `n`/`cs` do not exist and the hand model is used instead.
-    dict(file=_F, func='dec2dms', mode='int', params={},
-         outputs=[('d', 'dmsD'), ('m', 'dmsM'), ('cs', 'dmsCs')],
-         fallback={'dmsD': _fb('dmsD', ['n'], 'fldHi', 'Nat'), 'dmsM': _fb('dmsM', ['n'], 'fldM', 'Nat'),
-                   'dmsCs': _fb('dmsCs', ['n'], 'fldCs', 'Nat')}),
-    dict(file=_F, func='dec2hms', mode='int', params={},
-         outputs=[('h', 'hmsH'), ('m', 'hmsM'), ('cs', 'hmsCs')],
-         fallback={'hmsH': _fb('hmsH', ['n'], 'fldHi', 'Nat'), 'hmsM': _fb('hmsM', ['n'], 'fldM', 'Nat'),
-                   'hmsCs': _fb('hmsCs', ['n'], 'fldCs', 'Nat')}),
+    # one target per printed field, so that a field whose variable disappears in a refactor falls back alone
+    dict(file=_N, func='dec2dms', mode='int', params={}, outputs=[('d', 'dmsD')],
+         fallback={'dmsD': _fb('dmsD', ['n'], 'fldHi', 'Nat')}),
+    dict(file=_N, func='dec2dms', mode='int', params={}, outputs=[('m', 'dmsM')],
+         fallback={'dmsM': _fb('dmsM', ['n'], 'fldM', 'Nat')}),
+    dict(file=_N, func='dec2dms', mode='int', params={}, outputs=[('cs', 'dmsCs')],
+         fallback={'dmsCs': _fb('dmsCs', ['n'], 'fldCs', 'Nat')}),
+    dict(file=_N, func='dec2hms', mode='int', params={}, outputs=[('h', 'hmsH')],
+         fallback={'hmsH': _fb('hmsH', ['n'], 'fldHi', 'Nat')}),
+    dict(file=_N, func='dec2hms', mode='int', params={}, outputs=[('m', 'hmsM')],
+         fallback={'hmsM': _fb('hmsM', ['n'], 'fldM', 'Nat')}),
+    dict(file=_N, func='dec2hms', mode='int', params={}, outputs=[('cs', 'hmsCs')],
+         fallback={'hmsCs': _fb('hmsCs', ['n'], 'fldCs', 'Nat')}),
 ]
